@@ -966,3 +966,31 @@ mut('c07-cookie-lookup-outside-try', ['C07'], AU,
 mut('c03-reply-serial-not-rewrapped', ['C03'], MS,
     [("                elif attr_name in ('unix_fds', 'reply_serial'):\n", "                elif attr_name in ('unix_fds',):\n")], ['C03.D2'],
     note='round-3 seed')
+
+# round-3 seeds C08-C20 as regression mutants --------------------------------------
+mut('c08-empty-reply-skips-signature-check', ['C08', 'C11'], CL,
+    [("        if msg is None:\n            return None\n\n        if returnSignature != _NO_CHECK_RETURN:", "        if msg is None or not msg.body:\n            return None\n\n        if returnSignature != _NO_CHECK_RETURN:")], ['C08.D5', 'C11.D4'],
+    note='round-3 seed: an empty reply to a call with a declared return signature is delivered as None')
+mut('c09-proxy-eq-hash', ['C09'], OB,
+    [("    def notifyOnDisconnect(self, callback):\n        \"\"\"\n        Registers a callback that will be called when the DBus connection",
+      "    def __eq__(self, other):\n        return isinstance(other, RemoteDBusObject) and (self.busName, self.objectPath) == (other.busName, other.objectPath)\n\n    def __hash__(self):\n        return hash((self.busName, self.objectPath))\n\n    def notifyOnDisconnect(self, callback):\n        \"\"\"\n        Registers a callback that will be called when the DBus connection")], ['C09.D5'],
+    note='round-3 seed: equal proxies collapse in the WeakSet registry')
+mut('c11-explicit-interface-replaced-by-known', ['C11'], OB,
+    [("                if isinstance(i, interface.DBusInterface):\n                    ifl.append(i)\n", "                if isinstance(i, interface.DBusInterface):\n                    ifl.append(interface.DBusInterface.knownInterfaces.get(i.name, i))\n")], ['C11.D3'],
+    note='round-3 seed (condensed)')
+mut('c14-cleanup-only-after-hello', ['C14', 'C13'], BU,
+    [("        if self.bus is not None:\n            self.bus.clientDisconnected(self)", "        if self.bus is not None and self._called_hello:\n            self.bus.clientDisconnected(self)")], ['C14.D2'],
+    note='round-3 seed')
+mut('c19-dbussignature-on-type-only', ['C19'], M,
+    [("getattr(pobj, 'dbusSignature', None)", "getattr(type(pobj), 'dbusSignature', None)")], ['C19.D2'],
+    note='round-3 seed')
+mut('c20-struct-drops-oobfds', ['C20', 'C01'], M,
+    [("    return unmarshal(ct[1:-1], data, offset, lendian, oobFDs)\n", "    return unmarshal(ct[1:-1], data, offset, lendian)\n")], ['C20.D2', 'C01.D7'],
+    note='round-3 seed: a descriptor inside a struct / dict entry resolves against no list')
+mut('c18-word-boundary-digit', ['C18'], M,
+    [("dot_digit_re = re.compile(r'\\.\\d')", "dot_digit_re = re.compile(r'\\b\\d')")], ['C18.D1'],
+    note='round-3 seed (regex half): a digit after a hyphen is rejected in bus names')
+mut('c05-signed-string-length', ['C05'], M,
+    [("    slen = struct.unpack_from(lendian and '<I' or '>I', data, offset)[0]\n    s = codecs.decode(data[offset + 4: offset + 4 + slen], 'utf-8')",
+      "    slen = struct.unpack_from(lendian and '<i' or '>i', data, offset)[0]\n    s = codecs.decode(data[offset + 4: offset + 4 + slen], 'utf-8')")], ['C05.D1'],
+    note='round-3 seed (condensed): a signed length makes the reported size negative and the array loop run backwards')
